@@ -1,13 +1,14 @@
 //@ function tmcg_mpz_fpowm_precompute
 //@ contract
-__CPROVER_requires(TABLE_OK(fpowm_table) && MPZ_OK(m) && MPZ_OK(p))
-/* GMP precondition reachable from the wire: every stream constructor passes the modulus it just read */
-__CPROVER_requires(V(p) != 0)
-__CPROVER_assigns(__CPROVER_object_whole(fpowm_table))
-__CPROVER_ensures(V(fpowm_table[0]) == V(m))
+__CPROVER_requires(TABLE_OK(fpowm_table) && MPZ_OK(m) && MPZ_OK(p) && __tmcg_thrown == 0)
+__CPROVER_assigns(__CPROVER_object_whole(fpowm_table), __tmcg_thrown)
+/* C12: the modulus comes from the wire in every stream constructor; a zero modulus is refused
+ * (GMP would divide by zero), every other modulus is processed */
+__CPROVER_ensures(__tmcg_thrown == (V(p) == 0 ? TMCG_EXC_invalid_argument : TMCG_EXC_none))
+__CPROVER_ensures(__tmcg_thrown == 0 ==> V(fpowm_table[0]) == V(m))
 //@ loop 1
 __CPROVER_assigns(i, __CPROVER_object_whole(fpowm_table))
-__CPROVER_loop_invariant(1 <= i && i <= TMCG_MAX_FPOWM_T && V(fpowm_table[0]) == V(m))
+__CPROVER_loop_invariant(1 <= i && i <= TMCG_MAX_FPOWM_T && V(fpowm_table[0]) == V(m) && __tmcg_thrown == 0)
 __CPROVER_decreases(TMCG_MAX_FPOWM_T - i)
 //@ end
 
